@@ -18,24 +18,24 @@ MCOms     == {1, 2, 3}
 MCDesign  == [a \in MCAmps |-> [gain |-> 20, pmax |-> 21]]
 MCModes   == <<[name |-> "m3", thr |-> 29000000], [name |-> "m2", thr |-> 24000000], [name |-> "m1", thr |-> 20000000]>>
 Free(m)   == [n |-> NONE, m |-> m]
-R(short, rshort, include, hop, oms, load, mode, modes, slot, bidir, bw, type) ==
+R(short, rshort, include, hop, oms, load, nch, mode, modes, slot, bidir, bw, type) ==
     [short |-> short, rshort |-> rshort, include |-> include, hop |-> hop, via |-> <<>>, rvia |-> <<>>, oms |-> oms,
-     load |-> load, mode |-> mode, modes |-> modes, slot |-> slot, bidir |-> bidir, bw |-> bw, type |-> type]
+     load |-> load, nch |-> nch, mode |-> mode, modes |-> modes, slot |-> slot, bidir |-> bidir, bw |-> bw, type |-> type]
 MCReq ==
   [c \in MCClasses |->
-     CASE c = "dense"   -> R(<<"a1", "a2">>, <<"b2", "b1">>, <<>>, "", {1, 2}, 2, "m2", {"m1", "m2", "m3"}, Free(2),
+     CASE c = "dense"   -> R(<<"a1", "a2">>, <<"b2", "b1">>, <<>>, "", {1, 2}, 2, 4, "m2", {"m1", "m2", "m3"}, Free(2),
                              FALSE, 10000, "T1")
-       [] c = "sat"     -> R(<<"a1", "a2", "a3">>, <<"b3", "b2", "b1">>, <<>>, "", {1, 2, 3}, 4, "", {"m1", "m2", "m3"},
+       [] c = "sat"     -> R(<<"a1", "a2", "a3">>, <<"b3", "b2", "b1">>, <<>>, "", {1, 2, 3}, 4, 5, "", {"m1", "m2", "m3"},
                              Free(2), TRUE, 20000, "T2")
        \* nopath and loose: same ends, same include list (no route crosses it), they differ in the hop type only
-       [] c = "nopath"  -> R(<<"a1", "a2">>, <<"b2", "b1">>, <<"b3">>, "STRICT", {1, 2}, 0, "m1", {"m1", "m2", "m3"},
+       [] c = "nopath"  -> R(<<"a1", "a2">>, <<"b2", "b1">>, <<"b3">>, "STRICT", {1, 2}, 0, 3, "m1", {"m1", "m2", "m3"},
                              Free(1), FALSE, 10000, "T1")
-       [] c = "loose"   -> R(<<"a1", "a2">>, <<"b2", "b1">>, <<"b3">>, "LOOSE", {1, 2}, 0, "m1", {"m1", "m2", "m3"},
+       [] c = "loose"   -> R(<<"a1", "a2">>, <<"b2", "b1">>, <<"b3">>, "LOOSE", {1, 2}, 0, 3, "m1", {"m1", "m2", "m3"},
                              Free(1), FALSE, 10000, "T1")
        \* badmode: bidirectional, automatic selection, no mode of its type is feasible; the reverse check fails as well
-       [] c = "badmode" -> R(<<"a1", "a2", "a3">>, <<"b3", "b2", "b1">>, <<>>, "", {1, 2, 3}, 0, "", {"m3"}, Free(1),
+       [] c = "badmode" -> R(<<"a1", "a2", "a3">>, <<"b3", "b2", "b1">>, <<>>, "", {1, 2, 3}, 0, 2, "", {"m3"}, Free(1),
                              TRUE, 10000, "T3")
-       [] c = "slot"    -> R(<<"a2">>, <<"b2">>, <<>>, "", {2}, 0, "m1", {"m1", "m2", "m3"}, [n |-> 0, m |-> 2],
+       [] c = "slot"    -> R(<<"a2">>, <<"b2">>, <<>>, "", {2}, 0, 3, "m1", {"m1", "m2", "m3"}, [n |-> 0, m |-> 2],
                              FALSE, 10000, "T1")]
 
 \* B2 emission: one line per non-empty history (before the report): the order and, per request, the model's verdict
